@@ -513,7 +513,21 @@ fn directed_prelude(ty: &str, rng: &mut Rng) -> Option<(u64, Vec<Vec<u64>>)> {
             vec![K_MERGE, rb, rc],                       // B <- C
             vec![K_MERGE, rc, rb],
         ])),
-        "mapor" | "mapmm" | "mapmv" => Some(match rng.below(5) {
+        "mapor" | "mapmm" | "mapmv" => Some(match rng.below(6) {
+            // a parked remove travels inside a state to a replica that already holds the update it
+            // covers but never received the remove op; then again through an empty relay
+            5 => (1, vec![
+                vec![K_EDIT, ra, 0, 0, 1, m0, 0],        // A: update k0                       (op 0)
+                vec![K_DELIVER, rb, nodup, 0],
+                vec![K_EDIT, rb, 0, 5],                  // B: rm k0 with the get() context    (op 1)
+                vec![K_DELIVER, rc, nodup, 0],           // C holds the update only
+                vec![K_SPAWN, 0, 3],                     // fresh D
+                vec![K_DELIVER, 3, nodup, 1],            // D parks the remove
+                vec![K_MERGE, ra, 3],                    // A (update, no remove) <- D
+                vec![K_SPAWN, 0, 4],                     // fresh E
+                vec![K_MERGE, 4, 3],                     // E <- D: relay of the parked remove
+                vec![K_MERGE, rc, 4],                    // C (update, no remove) <- E
+            ]),
             // two removes issued from one read context (equal clocks, different keys) are parked
             // on two different fresh replicas, which merge before the updates arrive
             2 => (1, vec![
